@@ -1,6 +1,7 @@
 import Proofs.C10.FinMulti
 import Proofs.C10.Wrapped
 import Proofs.C10.MultiA
+import Proofs.C10.MiniTemplates
 import Proofs.C10.ExampleKey
 import Proofs.C10.ExampleEcdsa
 import Proofs.C10.Checker
@@ -1037,6 +1038,42 @@ theorem closure_sh_pkh_secp256k1 (vk : Bytes → Bool) (flags : Nat) (cx : TxCtx
       verifyScript (envOf secpCrypto flags cx) ss (p2sh hr) wit = .ok () :=
   closure_sh_pkh vk (envOf secpCrypto flags cx) hr h20 _ pk hrl hl20 hP hhr hh20 henc hs2 hs hpk hne
     (Btc.E2E.sign_passes_checkECDSA_secp256k1 cx (p2pkh h20) .BASE ht hht hk pk hp hsign der hder hmax)
+
+/-! ### wsh(miniscript), per template (NO general bridge to C15's satisfier yet)
+
+What is missing for "C15.satisfy output, laid out by the finalizer, is accepted by verifyScript" in general is a REFINEMENT
+lemma between C15's evaluator (over which C15 proves `satisfy` sound: T3 / T4) and C08's engine:
+`C15.eval (compile f) stack = accept → Core.evalWith (evalCtx env sv (compile f)) stack = .ok [[1]]` for every fragment of
+the covered set under every flag set (C15's opcode semantics refines `Core.step`, incl. MINIMALIF, NULLFAIL, the push-size
+and op-count limits).  With it `verify_p2wsh_of` / `verify_p2sh_p2wsh_of` / `verify_tr_script_of` -- generic in the script,
+proved -- give wsh / sh(wsh) / tapleaf closures for the whole set at once.  Until then: one template evaluated directly in
+C08's engine. -/
+
+/-- T1 (wsh(and_v(v:pk(A),pk(B)))): witness `[sig_B, sig_A, <A> CHECKSIGVERIFY <B> CHECKSIG]` -- the satisfaction
+    `sat(Y) sat(X)` of and_v -- is accepted under every flag set with WITNESS. -/
+theorem closure_wsh_andv_pk_pk (env : VerifyEnv) (h a b sa sb : Bytes) (hl : h.length = 32)
+    (hW : has env.flags FLAG_WITNESS = true) (hnz : castToBool h = true)
+    (hh : env.hashes.sha256 (andvPkPk a b) = h)
+    (hea : checkSignatureEncoding env.flags sa = .ok ()) (heb : checkSignatureEncoding env.flags sb = .ok ())
+    (hla : sa.length ≤ 520) (hlb : sb.length ≤ 520)
+    (hka : isCompressedPubKey a = true) (hkb : isCompressedPubKey b = true)
+    (hsa : env.checker.checkECDSA sa a (andvPkPk a b) .WITNESS_V0 = .ok true)
+    (hsb : env.checker.checkECDSA sb b (andvPkPk a b) .WITNESS_V0 = .ok true) :
+    verifyScript env [] (p2wsh h) [sb, sa, andvPkPk a b] = .ok () :=
+  verify_wsh_andvPkPk env h a b sa sb hl hW hnz hh hea heb hla hlb hka hkb hsa hsb
+
+/-- **T1 end to end on secp256k1 (wsh(and_v(v:pk(A),pk(B))))**: both signatures MADE by their keys over the BIP143 digest
+    with the whole witness script as script code. -/
+theorem closure_wsh_andv_pk_pk_secp256k1 (flags : Nat) (cx : TxCtx) (h a b sa sb : Bytes) (hl : h.length = 32)
+    (hW : has flags FLAG_WITNESS = true) (hnz : castToBool h = true)
+    (hh : sha256 (andvPkPk a b) = h)
+    (hea : checkSignatureEncoding flags sa = .ok ()) (heb : checkSignatureEncoding flags sb = .ok ())
+    (hla : sa.length ≤ 520) (hlb : sb.length ≤ 520)
+    (hka : isCompressedPubKey a = true) (hkb : isCompressedPubKey b = true)
+    (hsa : MadeBySecp cx (andvPkPk a b) .WITNESS_V0 sa a) (hsb : MadeBySecp cx (andvPkPk a b) .WITNESS_V0 sb b) :
+    verifyScript (envOf secpCrypto flags cx) [] (p2wsh h) [sb, sa, andvPkPk a b] = .ok () :=
+  closure_wsh_andv_pk_pk (envOf secpCrypto flags cx) h a b sa sb hl hW hnz hh hea heb hla hlb hka hkb
+    (madeBySecp_passes cx _ _ sa a hsa) (madeBySecp_passes cx _ _ sb b hsb)
 
 /-! ## T3 — BIP322 simple signatures verify for the address and message they were made for
 
